@@ -1,9 +1,12 @@
 #!/bin/bash
-# For each fix: commit in /repo: revert it in the working tree, run the checks of the properties it is recorded under, restore.
-cd "$(dirname "$0")/.."
-python3 - <<'PY' > /tmp/fixlist.txt
+# For each `fix:` commit recorded in known_findings.json: revert it (as a patch, in a private universe —
+# /repo itself is not touched), run the checks of the properties it is recorded under, and report whether the
+# defect is flagged again.
+V=$(cd "$(dirname "$0")/.." && pwd)
+cd $V
+python3 - > .work/fixlist.txt <<'PY'
 import json
-kf=json.load(open('/verif/known_findings.json'))
+kf=json.load(open('known_findings.json'))
 m={}
 for f in kf['findings']:
     if f['status']=='fixed':
@@ -12,18 +15,11 @@ for c,ps in m.items():
     print(c," ".join(sorted(set(ps))))
 PY
 while read c props; do
-  if git -C /repo diff $c~1 $c | git -C /repo apply -R 2>/dev/null; then
-    for p in $props; do
-      if [ -f lean/Tabmodel/Props/$p.lean ]; then
-        out=$(./check $p 2>&1 | grep -E "VIOLATION|ok tier|FAIL tier" | tr '\n' ' ')
-        echo "$c $p: $out" | cut -c1-260
-      else
-        echo "$c $p: (not claimed yet)"
-      fi
-    done
-  else
-    echo "$c: revert does not apply cleanly"
-  fi
-  git -C /repo checkout -- . 
-done < /tmp/fixlist.txt
-git -C /repo status --short | head -3
+  git -C /repo diff $c $c~1 > .work/revert_$c.diff
+  if ! git -C /repo apply --check $V/.work/revert_$c.diff 2>/dev/null; then echo "$c: revert does not apply cleanly on the current tree"; continue; fi
+  for p in $props; do
+    out=$(tools/uni.sh .work/revert_$c.diff $p 2>&1 | grep -E "VIOLATION|ok tier|FAIL tier" | tr '\n' ' ')
+    echo "$c $p: $out" | cut -c1-220
+  done
+  rm -f .work/revert_$c.diff
+done < .work/fixlist.txt
